@@ -128,6 +128,53 @@ fn stress_case(rep: &mut Report, rng: &mut Rng, nthreads: usize, nops: usize, wi
     rep.count("stress_cases");
 }
 
+
+// ---------------------------------------------------------------- (a') cold-start race after a restart
+/// Histories that cross an authority restart: the first writes to a thread after the restart (when
+/// the in-memory seq table is still empty) are released together through a barrier.
+fn cold_race_case(rep: &mut Report, rng: &mut Rng) {
+    let mut ts = TestStore::new("c01c");
+    let t0 = ts.store.ensure_default().unwrap();
+    let mut msgs: Vec<Msg> = Vec::new();
+    let n0 = rng.range(2, 6) as usize;
+    random_history(&ts.store, &t0, rng, n0, &mut msgs);
+    let branch = ts.store.branch(&t0, None, None, None, "u".into(), "cli".into()).ok().map(|b| b.0);
+    for _ in 0..rng.range(1, 3) {
+        ts.reopen();
+        let n = rng.range(2, 5) as usize;
+        let barrier = Arc::new(std::sync::Barrier::new(n));
+        let hs: Vec<_> = (0..n)
+            .map(|w| {
+                let store = ts.store.clone();
+                let barrier = barrier.clone();
+                let target = if w % 3 == 2 { branch.clone().unwrap_or(t0.clone()) } else { t0.clone() };
+                let mut rng = rng.fork();
+                let mut msgs = msgs.clone();
+                std::thread::spawn(move || {
+                    barrier.wait();
+                    // the first write is a message for most writers, any other append kind otherwise
+                    if rng.chance(2, 3) {
+                        let _ = store.append_message(&target, "u".into(), "cli".into(), "cold".into());
+                    } else {
+                        random_history(&store, &target, &mut rng, 1, &mut msgs);
+                    }
+                    random_history(&store, &target, &mut rng, 1, &mut msgs);
+                })
+            })
+            .collect();
+        for h in hs {
+            let _ = h.join();
+        }
+        let _ = ts.store.append_message(&t0, "u".into(), "cli".into(), "after".into());
+    }
+    rep.evaluations += 1;
+    rep.traces_validated += 1;
+    rep.count("cold_race_cases");
+    if let Err(e) = check_log(&ts.log_path()) {
+        rep.oracle_failure("C01|cold-start-race|seq-order", &format!("first writes after a restart released together: {e}"), json!({}));
+    }
+}
+
 // ---------------------------------------------------------------- (b) controlled schedules vs the LTS
 #[derive(Clone, Debug, PartialEq)]
 enum Op {
@@ -331,6 +378,10 @@ pub fn run(opts: &Opts) -> Report {
         let nt = rng.range(2, 6) as usize;
         let nops = rng.range(8, 40) as usize;
         stress_case(&mut rep, &mut rng, nt, nops, k % 3 == 2);
+    }
+    let n_cold = if opts.thorough { 800 } else { 80 } * opts.scale;
+    for _ in 0..n_cold {
+        cold_race_case(&mut rep, &mut rng);
     }
     // corpus: the branch race of Rip.Cex.C01.branch_race
     let mut cases: Vec<(Vec<Vec<Op>>, Vec<usize>)> = vec![(vec![vec![Op::Create], vec![Op::AppendForeign(0, 0)]], vec![0, 0, 0, 0, 1, 1, 1, 1, 1, 1, 0, 0, 0])];
